@@ -3194,7 +3194,7 @@ def dask_groupby_scan(array, by, axes: T_Axes, agg: Scan) -> DaskArray:
         array,
         dtype=array.dtype,
         meta=array._meta,
-        name="groupby-scan-preprocess",
+        token="groupby-scan-preprocess",
     )
 
     scan_ = partial(chunk_scan, agg=agg)
